@@ -43,9 +43,15 @@ func vPreemptWorld() (a, b *Queue, appA *Application, ask *Allocation, n1 *Node,
 	p := mk("p", root, false)
 	a = mk("a", p, true)
 	b = mk("b", p, true)
-	a.guaranteedResource = vResC(20)
 	b.guaranteedResource = vResD("b.guar", 12)
-	a.allocatedResource = resourcesNew()
+	if vTier() > 0 {
+		// thorough: the asker's side is symbolic as well - guaranteed share and current usage of queue a
+		a.guaranteedResource = vResD("a.guar", 30)
+		a.allocatedResource = vResD("a.alloc", 30)
+	} else {
+		a.guaranteedResource = vResC(20)
+		a.allocatedResource = resourcesNew()
+	}
 	rec = &vRecorder{}
 	appA = vApp("app-a", a, rec)
 	appB := vApp("app-b", b, rec)
